@@ -19,7 +19,15 @@ ASSUMPTIONS = [
     "D_metrics is a constructed family (1-3 hardware levels, DRAM, buffet/cache, compute, the three intersector types, sequencer) "
     "plus the shipped accelerator specifications; specifications the compiler refuses or cannot handle are dropped and counted",
 ]
-EXCLUDED = {}
+
+
+def flattened_output_explicit_shape(case):
+    """F-C11-2 (root cause shared with F-C06-3): metrics mode + flattened output: shape=[IJ] reads an unbound name"""
+    from . import c06
+    return c06.flattened_output_explicit_shape(case)
+
+
+EXCLUDED = {"flattened_output_explicit_shape": flattened_output_explicit_shape}
 
 
 def loop_headers(text):
